@@ -88,6 +88,15 @@ pub fn c08_case(ctx: &mut Ctx, text: &str, m: &MapSpec) {
       Err(e) => report_panic(ctx, &t, &format!("stream({columns},{fin})"), &e),
       Ok(s) => {
         ctx.transitions += 1;
+        // a stream that carries text must carry every character of T (a character that is not
+        // streamed is not attributed at all)
+        if !fin {
+          if let Some(streamed) = s.text() {
+            if streamed != text {
+              fail(ctx, "sms_stream_text", format!("({columns},{fin})"), format!("({columns},{fin}): the chunks add up to {streamed:?}, T is {text:?}"));
+            }
+          }
+        }
         if columns {
           for (i, &(l, c)) in pos.iter().enumerate() {
             let got = attr_via_segments(&s, l, c, false);
